@@ -115,10 +115,21 @@ def drive_controller(ct, mu, ms, randomness, ops, sub, total, mkind, script, see
             log.append(step)
             continue
         reported = controller.mutant_count() if step[0] in ("count", "count+create") else None
-        yielded = None
+        yielded = invalid = None
         if step[0] in ("create", "count+create"):
-            yielded = sum(1 for _ in controller.create_mutants())
-        log.append((step[0], reported, yielded))
+            # what the mutator itself enumerates from this RNG state: the controller must hand out exactly one
+            # item per mutant, a None module as placeholder when the mutant cannot be built
+            state = randomness.RNG.getstate()
+            enumerated = sum(1 for _ in mutator.mutate(sub.tree, sub.module))
+            randomness.RNG.setstate(state)
+            items = [m is None for m, _ in controller.create_mutants()]
+            yielded, invalid = len(items), sum(items)
+            if yielded != enumerated:
+                log.append((step[0], reported, yielded, invalid))
+                return ("count:controller-drops-mutants",
+                        f"{sub.name}: {mkind}: create_mutants() yields {yielded} items ({invalid} invalid-module placeholders), the "
+                        f"mutator enumerates {enumerated} mutants from the same state", log)
+        log.append((step[0], reported, yielded, invalid))
         r = sub.intact()
         if r:
             return (r + ":controller", f"{sub.name}: {mkind} controller step {step[0]} changed the original tree", log)
@@ -130,9 +141,10 @@ def drive_controller(ct, mu, ms, randomness, ops, sub, total, mkind, script, see
                 return ("count:controller-disagrees-with-enumeration",
                         f"{sub.name}: {mkind}: mutant_count() = {reported}, the enumeration that follows yields {yielded}"
                         + (f" (full first-order enumeration: {total})" if not mkind[0].isupper() else ""), log)
-            if not mkind[0].isupper() and mkind == "first-order" and yielded != total:
+            uncapped = mkind == "first-order" or (mkind.startswith("capped:") and not 0 <= int(mkind.split(":")[1]) < total)
+            if uncapped and yielded != total:
                 return ("count:controller-disagrees-with-enumeration",
-                        f"{sub.name}: first-order create_mutants() yields {yielded}, per-operator total {total}", log)
+                        f"{sub.name}: {mkind}: create_mutants() yields {yielded} items, the full enumeration has {total} mutants", log)
     return None
 
 
@@ -390,15 +402,19 @@ def run(ctx: vlib.Ctx):
             runs = []
             for cs in corpus_scripts.get(name, []):
                 runs.append((cs["mutator"], [tuple(x) for x in cs["script"]], cs["seed"]))
-            kinds = ["first-order", f"capped:{max(1, total // 2)}:1"]
+            kinds = ["first-order", "capped:-1:1", f"capped:{max(1, total // 2)}:{rng.choice([0, 1])}", f"capped:{total + 2}:1"]
+            if ctx.quick and not name.startswith("corpus_"):
+                kinds = ["first-order", rng.choice(kinds[1:])]
             kinds += [f"{st.__name__}:{rng.choice([2, 2, 3])}" for st in (rng.sample(strategies[:3], 1) if ctx.quick else strategies)]
-            kinds += ["RandomHOMStrategy:2"] * 2
+            kinds += ["RandomHOMStrategy:2"] * (1 if ctx.quick else 2)
             for mk in kinds:
                 runs.append((mk, gen_script(rng), rng.randrange(10**6)))
             for mk, script, seed in runs:
                 r = drive_controller(ct, mu, ms, randomness, ops, sub, total, mk, script, seed)
                 ctx.case_seen(("controller", name, mk, tuple(script), seed), nontrivial=total > 0)
                 ctx.count("controller:" + mk.split(":")[0])
+                if r is None:
+                    pass
                 if r:
                     fail(r[0], r[1], {**base_replay, "controller": {"mutator": mk, "script": [list(x) for x in script], "seed": seed}, "log": [list(x) for x in r[2]]})
                     if r[0].startswith("original"):
